@@ -23,6 +23,10 @@ import (
 	"github.com/smart-core-os/sc-golang/verifharness/lib"
 )
 
+// runs that ended with a writer waiting for a lock held outside a locked section; exploration stops early
+// once there are several (every further run would end the same way and leak its goroutines)
+var stuckHooked, stuckNested int
+
 var parkPoints = []string{"gau.afterRead", "gau.beforeLock", "coll.delete.afterRead"}
 
 // ---------------------------------------------------------------------------------------------
@@ -37,6 +41,7 @@ type Run struct {
 	Final   map[int]P
 	Stamps  map[int]int64 // change time stored with each value
 	RNG     int           // rng.Read calls made
+	Stuck   bool          // nested run: the call did not return (a rival made from its callback waits for a lock the call holds)
 }
 
 // runScheduled executes sc on the real code. The schedule follows prefix as long as it lasts (entries
@@ -96,8 +101,21 @@ func runScheduled(ctl *k4.Controller, sc Scenario, prefix []int, choose func(ena
 		before := len(r.Results[pick])
 		w.clk.n.Store(int64(len(r.Sched)) + 1) // the instant the clock shows during this step
 		st := ctl.Step(th)
+		for wait := 0; st == k4.Blocked && wait < 50; wait++ {
+			// a transient wait (allocator, logger, scheduler under load) is not a disabled step: look again
+			time.Sleep(2 * time.Millisecond)
+			st = ctl.Poll(th)
+		}
 		if st == k4.Blocked {
-			panic("c02: a writer blocked without subscribers: " + th.Point)
+			// no step of a writer is ever disabled in the model: locks are only held inside a step. Here a parked
+			// writer (between its read and its commit) holds a lock the released one waits for.
+			r.Stuck = true
+			stuckHooked++
+			r.Sched = append(r.Sched, pick)
+			r.Results[pick] = append(r.Results[pick], "deadlock")
+			r.Hist = append(r.Hist, HOp{T: pick, N: cur[pick], Op: sc.Progs[pick][cur[pick]], Inv: inv[pick], Resp: step, Res: "deadlock", GenID: -1})
+			r.Final, r.Stamps = map[int]P{}, map[int]int64{}
+			return r
 		}
 		if th.Panic != nil {
 			r.Results[pick] = append(r.Results[pick], fmt.Sprint("panic:", th.Panic))
@@ -119,17 +137,35 @@ func runScheduled(ctl *k4.Controller, sc Scenario, prefix []int, choose func(ena
 // inside its own callbacks (which the write path runs with no lock held), i.e. between its optimistic read
 // and its write lock. For the model every call that ran is a thread of its own: rival j is thread j+1 and
 // the schedule is read(0) ▸ { rival j to completion ▸ next step of 0 }*.
-func runNested(sc Scenario) *Run {
+func runNested(sc Scenario) *Run { return runNestedOnce(sc, false) }
+
+func runNestedOnce(sc Scenario, confirm bool) *Run {
 	w := newWorld(sc, false)
 	outer := sc.Progs[0][0]
 	gen := -1
 	var res string
-	if p, msg := lib.Catch(func() { res = w.exec(outer, &gen) }); p {
-		res = "panic:" + msg
-	}
-	resp := w.seq.Add(1)
+	finished := make(chan struct{})
+	go func() {
+		defer close(finished)
+		if p, msg := lib.Catch(func() { res = w.exec(outer, &gen) }); p {
+			res = "panic:" + msg
+		}
+	}()
 	plain := outer
 	plain.Rivals, plain.RivalAt = nil, ""
+	select {
+	case <-finished:
+	case <-time.After(5 * time.Second):
+		// callbacks must run with no lock held (GetAndUpdate's contract): the rival is waiting for this call
+		if !confirm {
+			// self-confirming: only a second run that does not return either is reported
+			return runNestedOnce(sc, true)
+		}
+		stuckNested++
+		return &Run{Progs: [][]Op{{plain}}, Results: [][]string{{"deadlock"}}, Sched: []int{0}, Stuck: true,
+			Hist: []HOp{{T: 0, Op: plain, Inv: 0, Resp: 1, Res: "deadlock", GenID: -1}}, Final: map[int]P{}, Stamps: map[int]int64{}}
+	}
+	resp := w.seq.Add(1)
 	r := &Run{Progs: [][]Op{{plain}}, Results: [][]string{{res}}, Sched: []int{0}}
 	r.Hist = append(r.Hist, HOp{T: 0, N: 0, Op: plain, Inv: 0, Resp: resp, Res: res, GenID: gen})
 	for j, rv := range w.rivals {
@@ -164,6 +200,9 @@ func exploreAll(ctl *k4.Controller, sc Scenario, limit int, visit func(*Run)) (c
 		r := runScheduled(ctl, sc, prefix, nil)
 		count++
 		visit(r)
+		if r.Stuck {
+			return count, true
+		}
 		for i := len(r.Sched) - 1; i >= len(prefix); i-- {
 			for _, alt := range r.Enabled[i] {
 				if alt > r.Sched[i] {
@@ -190,9 +229,9 @@ func (o Op) pureIncrement() bool {
 	}
 	switch o.F[0] {
 	case 'a':
-		return o.Mask == "" || o.Mask == "a" || o.Mask == "ab"
+		return !o.After && (o.Mask == "" || o.Mask == "a" || o.Mask == "ab")
 	case 'b':
-		return o.Mask == "" || o.Mask == "b" || o.Mask == "ab"
+		return !o.After && (o.Mask == "" || o.Mask == "b" || o.Mask == "ab")
 	}
 	return false
 }
@@ -236,6 +275,9 @@ func judge(sc Scenario, hist []HOp, final map[int]P) *verdict {
 		if strings.HasPrefix(h.Res, "panic:") {
 			return &verdict{"C02/" + h.Op.K + "/panic", "a concurrent write panicked", "a result", h.Res}
 		}
+		if h.Res == "deadlock" {
+			return &verdict{"C02/" + h.Op.K + "/lock-held-outside-section", "a writer waits for a lock that another call holds while it is between its optimistic read and its commit (parked at a yield point, or running its own callback which made this write)", "no lock is held while the change function runs", "the call did not return"}
+		}
 		id := h.Op.target()
 		if h.Op.Gen {
 			id = h.GenID
@@ -272,20 +314,32 @@ func judge(sc Scenario, hist []HOp, final map[int]P) *verdict {
 			}
 		}
 	}
-	// Aborted / Unavailable only when some other call overlapped (or the id generator cannot find a free id:
-	// all ten candidates it draws are taken only in scenarios that start with ten records)
+	// Aborted only when a call that took effect on the same id overlapped, Unavailable only when five did
+	// (or the id generator cannot find a free id: all ten candidates it draws are taken only in scenarios
+	// that start with ten records)
+	idOfCall := func(h HOp) int {
+		if h.Op.Gen {
+			return h.GenID
+		}
+		return h.Op.target()
+	}
 	for i, h := range hist {
 		if !lostRace(h.Res) || (h.Op.Gen && len(init) >= 10) {
 			continue
 		}
-		overlap := false
+		need, rivals := 1, 0
+		if h.Res == "err:Unavailable" {
+			need = 5
+		}
 		for j, g := range hist {
-			if i != j && !(g.Resp < h.Inv || h.Resp < g.Inv) {
-				overlap = true
+			if i != j && !(g.Resp < h.Inv || h.Resp < g.Inv) && strings.HasPrefix(g.Res, "ok:") && g.Res != "ok:nil" && idOfCall(g) == idOfCall(h) {
+				rivals++
 			}
 		}
-		if !overlap {
-			return &verdict{"C02/" + h.Op.K + "/spurious-" + strings.TrimPrefix(h.Res, "err:"), "a call that overlapped no other call lost a race", "a result of the sequential specification", h.Res}
+		if rivals < need {
+			return &verdict{"C02/" + h.Op.K + "/spurious-" + strings.TrimPrefix(h.Res, "err:"),
+				fmt.Sprintf("a call lost a race although only %d call(s) that took effect on its id overlapped it (%d needed)", rivals, need),
+				"a result of the sequential specification", h.Res}
 		}
 	}
 	if ok, _ := linearizable(init, hist, final); !ok {
@@ -314,6 +368,7 @@ func genVal(rng *rand.Rand) P {
 // options shared by every scenario of one kind: which option combinations its calls use
 type flavour struct {
 	masks  bool   // update masks on writes
+	after  bool   // InterceptAfter callbacks
 	wt     string // "" none | "same": every write carries one write time | "mixed"
 	sameWT int64
 }
@@ -345,6 +400,7 @@ func genOp(rng *rand.Rand, ids []int, withValue bool, fl flavour) Op {
 				o.WT = pi64(int64(5 + rng.Intn(2)))
 			}
 		}
+		o.After = fl.after && rng.Intn(2) == 0
 	}
 	pre := func(o *Op) {
 		switch rng.Intn(6) {
@@ -365,7 +421,7 @@ func genOp(rng *rand.Rand, ids []int, withValue bool, fl flavour) Op {
 	}
 	switch {
 	case k < 5: // Add
-		o := Op{K: "u", ID: id, EA: true, CIA: true, F: "s" + genVal(rng).String()}
+		o := Op{K: "u", ID: id, EA: true, CIA: true, ViaAdd: rng.Intn(2) == 0, F: "s" + genVal(rng).String()}
 		opts(&o)
 		return o
 	case k < 7: // upsert
@@ -388,7 +444,7 @@ func genOp(rng *rand.Rand, ids []int, withValue bool, fl flavour) Op {
 }
 
 func genFlavour(rng *rand.Rand) flavour {
-	fl := flavour{masks: rng.Intn(2) == 0}
+	fl := flavour{masks: rng.Intn(2) == 0, after: rng.Intn(4) == 0}
 	switch rng.Intn(4) {
 	case 0:
 		fl.wt, fl.sameWT = "same", int64(rng.Intn(2)*5) // 0 = the instant the constructor stamped
@@ -464,7 +520,7 @@ func genScenario(rng *rand.Rand, maxThreads, maxOps int) Scenario {
 				}
 				prog = append(prog, o)
 			case mode == 3 && rng.Intn(3) > 0:
-				prog = append(prog, Op{K: "u", Gen: true, EA: true, CIA: true, F: "s" + genVal(rng).String()})
+				prog = append(prog, Op{K: "u", Gen: true, EA: true, CIA: true, ViaAdd: rng.Intn(2) == 0, F: "s" + genVal(rng).String()})
 			case mode == 3:
 				prog = append(prog, Op{K: "d", ID: genBase + 10*rng.Intn(2), AM: rng.Intn(2) == 0})
 			case mode == 5: // increments of the Value
@@ -545,8 +601,8 @@ func genNested(rng *rand.Rand) Scenario {
 // witnesses: small scenarios that exercise each race window; all their schedules are enumerated
 func witnessScenarios() []Scenario {
 	set := func(a, b int64) string { return "s" + P{a, b}.String() }
-	add := func(v int64) Op { return Op{K: "u", ID: 0, EA: true, CIA: true, F: set(v, 0)} }
-	gadd := func(v int64) Op { return Op{K: "u", Gen: true, EA: true, CIA: true, F: set(v, 0)} }
+	add := func(v int64) Op { return Op{K: "u", ID: 0, EA: true, CIA: true, ViaAdd: v%2 == 0, F: set(v, 0)} }
+	gadd := func(v int64) Op { return Op{K: "u", Gen: true, EA: true, CIA: true, ViaAdd: v%2 == 0, F: set(v, 0)} }
 	inc := func(k int) Op { return Op{K: "u", ID: 0, F: "a" + strconv.Itoa(k)} }
 	upinc := func(k int) Op { return Op{K: "u", ID: 0, CIA: true, F: "a" + strconv.Itoa(k)} }
 	cas := func(e, v int64) Op { return Op{K: "u", ID: 0, Expect: pp(e, 0), F: set(v, 0)} }
@@ -726,6 +782,11 @@ func main() {
 		"no hooks, no goroutines: each case = one call whose own callback (WithExpectedCheck / InterceptBefore, run by the write path with no lock held) makes 1-5 complete rival calls, i.e. between the call's optimistic read and its write lock; frozen clock; compared with run(model) on the schedule read ▸ rival to completion ▸ next step (one model thread per call that ran); non-trivial = a rival ran; distinct = distinct scenario")
 	mon := res.Monitor("linearizable-hooked",
 		"the property on every hooked and every nested execution: independent Go map specification + backtracking linearizability checker (real-time order from step indices), plus add-exclusive (given and generated ids), no-lost-increment per field, no spurious Aborted")
+	t0 := time.Now()
+	phase := func(name string) {
+		res.Extra["wall_s_"+name] = float64(time.Since(t0).Milliseconds()) / 1000
+		t0 = time.Now()
+	}
 	var cases []pending
 	record := func(sc Scenario, r *Run) {
 		cases = append(cases, pending{sc, r})
@@ -734,6 +795,9 @@ func main() {
 	// 1. witnesses: every schedule
 	exhaustiveCount := 0
 	for _, sc := range witnessScenarios() {
+		if stuckHooked >= 10 {
+			break
+		}
 		n, complete := exploreAll(ctl, sc, 0, func(r *Run) { record(sc, r) })
 		exhaustiveCount += n
 		if !complete {
@@ -746,10 +810,13 @@ func main() {
 		res.Extra["pair_scenarios_total"] = len(pairs)
 		if !f.Thorough() {
 			rng.Shuffle(len(pairs), func(i, j int) { pairs[i], pairs[j] = pairs[j], pairs[i] })
-			pairs = pairs[:40]
+			pairs = pairs[:80]
 		}
 		np := 0
 		for _, sc := range pairs {
+			if stuckHooked >= 10 {
+				break
+			}
 			n, complete := exploreAll(ctl, sc, 0, func(r *Run) { record(sc, r) })
 			np += n
 			if !complete {
@@ -760,7 +827,7 @@ func main() {
 		res.Extra["pair_scenarios_all_schedules"] = np
 	}
 	// a Delete invalidated five times in a row gives up with Unavailable
-	{
+	if stuckHooked < 10 {
 		inc := Op{K: "u", ID: 0, F: "a1"}
 		sc := Scenario{Init: map[string]P{"0": {0, 0}}, Progs: [][]Op{{{K: "d", ID: 0}}, {inc, inc, inc, inc, inc}}}
 		sched := []int{0}
@@ -772,13 +839,13 @@ func main() {
 		record(sc4, runScheduled(ctl, sc4, sched, nil))
 	}
 	// 2. thorough: every schedule of bigger programs and of random small scenarios
-	if f.Thorough() {
+	if f.Thorough() && stuckHooked < 10 {
 		n2 := 0
 		for _, sc := range thoroughScenarios() {
 			n, _ := exploreAll(ctl, sc, 6000, func(r *Run) { record(sc, r) })
 			n2 += n
 		}
-		for i := 0; i < 60; i++ {
+		for i := 0; i < 150; i++ {
 			sc := genScenario(rng, 2, 2)
 			n, _ := exploreAll(ctl, sc, 1500, func(r *Run) { record(sc, r) })
 			n2 += n
@@ -786,23 +853,27 @@ func main() {
 		res.Extra["thorough_scenarios_all_schedules"] = n2
 	}
 	// 3. random scenarios, random schedules
-	nrand := f.N(2500, 30000)
-	for i := 0; i < nrand; i++ {
-		sc := genScenario(rng, 3, 2)
+	nrand := f.N(3000, 40000)
+	for i := 0; i < nrand && stuckHooked < 10; i++ {
+		sc := genScenario(rng, 3+i%4/3, 2) // every fourth scenario may have four writers
 		r := runScheduled(ctl, sc, nil, func(en []int) int { return en[rng.Intn(len(en))] })
 		record(sc, r)
 	}
 	ctl.Close()
 	hooked := len(cases)
+	phase("hooked")
 	// 4. nested rivals (hooks removed)
 	for _, sc := range nestedWitnesses() {
-		record(sc, runNested(sc))
+		if stuckNested < 3 {
+			record(sc, runNested(sc))
+		}
 	}
-	for i, n := 0, f.N(1500, 15000); i < n; i++ {
+	for i, n := 0, f.N(2500, 30000); i < n && stuckNested < 3; i++ {
 		sc := genNested(rng)
 		record(sc, runNested(sc))
 	}
 
+	phase("nested")
 	// model side, in one batch
 	drv, err := lib.StartDriver(f.Driver)
 	if err != nil {
@@ -841,6 +912,7 @@ func main() {
 			}
 		}
 	}
+	phase("model")
 	for _, c := range cases {
 		sc := c.sc
 		in := sc.input(c.run.Sched)
@@ -857,8 +929,10 @@ func main() {
 		}
 	}
 
+	phase("judge")
 	// 5. unhooked stress
 	stress(f, res, rng)
+	phase("stress")
 
 	if err := res.Write(f.Out); err != nil {
 		lib.Fatal(err)
@@ -896,6 +970,9 @@ func (o Op) optionClass() string {
 	}
 	if o.WT != nil {
 		parts = append(parts, "write-time")
+	}
+	if o.After {
+		parts = append(parts, "after")
 	}
 	if len(parts) == 0 {
 		return "opts:none"
